@@ -36,9 +36,11 @@ impl Axecutor {
         let rsp = self.reg_read_64(Register::RSP.into())?.wrapping_add(2);
 
         let value = self.mem_read_16(rsp)?;
-        self.reg_write_16(reg, value)?;
 
+        // The stack pointer is incremented before the destination is written, so POP SP ends
+        // up with the popped value instead of the incremented one
         self.reg_write_64(Register::RSP.into(), rsp)?;
+        self.reg_write_16(reg, value)?;
 
         Ok(())
     }
@@ -62,9 +64,11 @@ impl Axecutor {
         let rsp = self.reg_read_64(Register::RSP.into())?.wrapping_add(8);
 
         let value = self.mem_read_64(rsp)?;
-        self.reg_write_64(reg, value)?;
 
+        // The stack pointer is incremented before the destination is written, so POP RSP ends
+        // up with the popped value instead of the incremented one
         self.reg_write_64(Register::RSP.into(), rsp)?;
+        self.reg_write_64(reg, value)?;
 
         Ok(())
     }
